@@ -75,7 +75,10 @@ def run(ctx):
             path = os.path.join(d, dname, fname)
             with open(path, "w", encoding="utf-8", newline="") as f:
                 f.write(text)
-            rc, out, err, dt = vlib.run([vlib.PY, os.path.join(vlib.VERIF, "tools", "run_one.py"), path], 120,
+            if name == "two-files":
+                with open(os.path.join(d, dname, "c19_helper_module.py"), "w") as f:
+                    f.write(srcref_cases.HELPER_MODULE)
+            rc, out, err, dt = vlib.run([vlib.PY, os.path.join(vlib.VERIF, "tools", "run_one.py"), path, "--script"], 120,
                                         cwd=d, env=vlib.impl_env())
             lines_ = [l for l in out.splitlines() if l.startswith("{")]
             if not lines_:
@@ -85,6 +88,18 @@ def run(ctx):
                 raise RuntimeError(f"tour program {name} was rejected by the implementation: {res}")
             mir = res["ok"]
             items, problems = items_of(mir, tour)
+            if name == "two-files":
+                helper_lines = srcref_cases.HELPER_MODULE.splitlines()
+                kept = []
+                for lb, cs, r in items:
+                    if r[0] == "c19_helper_module.py":
+                        ok = (1 <= r[1] <= len(helper_lines) and r[3] == len(helper_lines[r[1] - 1])
+                              and r[2] == sum(len(l) + 1 for l in helper_lines[:r[1] - 1]))
+                        if not ok:
+                            problems.append(f"{lb}: reference {r} does not delimit a line of the helper module")
+                    else:
+                        kept.append((lb, cs, r))
+                items = kept
             embedded = mir["source_files"].get(fname)
             if embedded is None:
                 problems.append("the MIR embeds no source text for the program file")
